@@ -249,8 +249,14 @@ fn build(pkt: &Pkt, m: &Mutn, max: i32, body_ignored: bool) -> Built {
                     }
                 }
             }
-            // certainly malformed: negative, or longer than everything that follows in the frame
-            let must_err = !body_ignored && (v_used < 0 || (v_used as usize) > remaining_after + 8);
+            // certainly malformed: negative, longer than everything that follows in the frame, or (for the last
+            // field of the frame) longer than the bytes the frame still holds
+            let is_last = fi + 1 == fields.len();
+            let own_len = match &fields[fi] {
+                Field::Str(b) | Field::Bytes(b) => b.len(),
+                _ => 0,
+            };
+            let must_err = !body_ignored && (v_used < 0 || (v_used as usize) > remaining_after + 8 || (is_last && (v_used as usize) > own_len));
             Built { first: normal(&w.0), rest: vec![], refuse_on_prefix: false, must_err, reached: true }
         }
         Mutn::Truncate(raw) => {
@@ -338,10 +344,12 @@ struct Obs {
     step_name: &'static str,
     encrypted: bool,
     done_before_eof: bool,
+    /// virtual instant at which the mutated frame was handed to the transport
+    mutated_at: u64,
 }
 
 fn run_case(case: &Case) -> (sim::SimOutcome, Obs) {
-    let obs = Arc::new(Mutex::new(Obs { reached: false, refused_on_prefix: None, must_err: false, refuse_expected: false, step_name: "", encrypted: false, done_before_eof: false }));
+    let obs = Arc::new(Mutex::new(Obs { reached: false, refused_on_prefix: None, must_err: false, refuse_expected: false, step_name: "", encrypted: false, done_before_eof: false, mutated_at: u64::MAX }));
     let o2 = Arc::clone(&obs);
     let case2 = case.clone();
     let tables: std::collections::BTreeMap<String, std::collections::BTreeMap<String, String>> = ["en", "en_us", "de"]
@@ -422,6 +430,7 @@ fn run_case(case: &Case) -> (sim::SimOutcome, Obs) {
                     o.refuse_expected = b.refuse_on_prefix;
                     o.step_name = step;
                     o.encrypted = c.enc.is_some();
+                    o.mutated_at = c.now_ms();
                 }
                 let pulled_before = c.sh.lock().unwrap().pulled;
                 c.push(&b.first);
@@ -588,6 +597,13 @@ impl Check for C04 {
             return (Verdict::Fail { sig: format!("malformed-input-accepted:{cname}"), msg: format!("{cname} at step {}: listen returned Ok", o.step_name) }, info);
         }
         if o.must_err {
+            // a malformed frame is not answered: the connection just ends
+            if let Some((t, p)) = out.cb.iter().find(|(t, _)| *t >= o.mutated_at) {
+                return (Verdict::Fail { sig: format!("reply-to-malformed-input:{cname}"), msg: format!("{cname} at step {}: the malformed frame (handed over at {} ms) was followed by {} at {t} ms", o.step_name, o.mutated_at, p.kind()) }, info);
+            }
+            if out.stream_broken.is_some() || out.cb_leftover > 0 {
+                return (Verdict::Fail { sig: format!("reply-to-malformed-input:{cname}"), msg: format!("{cname} at step {}: undecodable bytes were sent after the malformed frame ({:?}, {} stray bytes)", o.step_name, out.stream_broken, out.cb_leftover) }, info);
+            }
             // and nothing is granted afterwards
             if out.cb.iter().any(|(_, p)| matches!(p, Pkt::CfgTransfer { .. })) {
                 return (Verdict::Fail { sig: "transfer-after-malformed-input".into(), msg: format!("{cname} at step {}", o.step_name) }, info);
